@@ -68,6 +68,7 @@ static vs_thread_hook_fn thread_hook;
 static long pct_points[16];
 static long low_prio = -1;
 static int rr_last = -1;
+static long window_hits = 0, window_left = 0;
 
 static uint64_t
 rnd(void)
@@ -115,6 +116,8 @@ vs_init(const struct vs_config* cfg, vs_hang_fn hang)
     NL = 0;
     steps = 0;
     nsched = 0;
+    window_hits = 0;
+    window_left = 0;
     if (!sched_ids) {
         sched_ids = (int*)malloc(sizeof(int) * MAXSCHED);
         sched_nc = (unsigned char*)malloc(MAXSCHED);
@@ -186,9 +189,16 @@ pick(void)
         if (alldone)
             return -1;
         if (on_hang)
-            on_hang("deadlock");
-        fprintf(stderr, "vsched: DEADLOCK\n");
-        _exit(3);
+            on_hang("deadlock"); // may return after making some thread runnable again (e.g. a spurious cv wake-up probe)
+        for (int i = 0; i < NT; i++)
+            if (T[i].st == ST_RUN || T[i].st == ST_SLEEP) {
+                c[n++] = i;
+                mask |= 1u << i;
+            }
+        if (n == 0) {
+            fprintf(stderr, "vsched: DEADLOCK\n");
+            _exit(3);
+        }
     }
     ++steps;
     if (steps > C.budget + C.fair_budget) {
@@ -199,9 +209,20 @@ pick(void)
     }
     int k = -1;
     int strategy = C.strategy;
+    if (C.window_label && T[cur].at && T[cur].st != ST_DONE && !strcmp(T[cur].at, C.window_label)) {
+        if (window_hits == C.window_index)
+            window_left = C.window_steps;
+        window_hits++;
+        T[cur].at = "window_seen"; // count each stop once
+    }
+    if (window_left > 0) {
+        window_left--;
+        if (mask & (1u << C.window_thread))
+            k = C.window_thread;
+    }
     if (steps > C.budget)
         strategy = VS_RR;
-    if (nsched < C.nreplay && !diverged) {
+    if (k < 0 && nsched < C.nreplay && !diverged) {
         int want = C.replay[nsched];
         for (int i = 0; i < n; i++)
             if (c[i] == want)
@@ -377,6 +398,20 @@ void
 vs_wait(void* obj, const char* at)
 {
     block(ST_BLK_WAIT, obj, at);
+}
+
+// Spurious wake-up of every thread sleeping on a condition variable (always legal for condition variables).
+// Used as a probe at a deadlock: a waiter that then proceeds had been asleep although its predicate was satisfiable.
+int
+vs_spurious_wake_all(void)
+{
+    int k = 0;
+    for (int i = 0; i < NT; i++)
+        if (T[i].st == ST_BLK_CV) {
+            T[i].st = ST_RUN;
+            k++;
+        }
+    return k;
 }
 
 void
